@@ -179,6 +179,13 @@ pub enum Op {
     PublisherRemove { ca: u8 },
     /// re-create the publisher and point the CA at it again
     PublisherReadd { ca: u8 },
+    /// the operator of `parent` adds a child again that was removed there while
+    /// the child itself still has the parent configured (same handle, the
+    /// child's current identity)
+    ChildReadd { parent: u8, child: u8, res: u16 },
+    /// the operator of `parent` registers the current identity certificate of
+    /// the child (after the child replaced its identity key)
+    ChildIdSync { parent: u8, child: u8 },
     Advance { secs: u32 },
     /// run up to n due tasks
     Pump { n: u8 },
@@ -242,6 +249,8 @@ impl Op {
             Op::SessionReset => "SessionReset",
             Op::PublisherRemove { .. } => "PublisherRemove",
             Op::PublisherReadd { .. } => "PublisherReadd",
+            Op::ChildReadd { .. } => "ChildReadd",
+            Op::ChildIdSync { .. } => "ChildIdSync",
             Op::Advance { .. } => "Advance",
             Op::Pump { .. } => "Pump",
             Op::Quiesce => "Quiesce",
@@ -1065,6 +1074,44 @@ impl Sim {
                     if r.is_ok() {
                         self.model.cas.get_mut(&name).unwrap().publisher_removed = false;
                         self.flags.hit("publisher_readded");
+                    }
+                    r
+                }
+            }
+            Op::ChildReadd { parent, child, res } => {
+                let parent = parent_name(*parent);
+                let child = ca_name(*child as usize % MAX_CAS);
+                let removed_there = parent != TA
+                    && self.model.cas.contains_key(&parent)
+                    && self.model.cas.get(&child).map(|c| c.parents.contains(&parent)).unwrap_or(false)
+                    && !self.model.cas[&parent].children.contains_key(&child);
+                if !removed_there {
+                    Err("child was not removed at this parent".into())
+                } else {
+                    let rs = resources_of(*res);
+                    let w = self.w.as_ref().unwrap();
+                    let r = crate::world::guarded(|| w.parent_add_child(&child, &parent, &rs))?;
+                    if r.is_ok() {
+                        let cm = ChildModel { entitlement: rs, ..Default::default() };
+                        self.model.cas.get_mut(&parent).unwrap().children.insert(child.clone(), cm);
+                        self.flags.hit("child_readded");
+                    }
+                    r
+                }
+            }
+            Op::ChildIdSync { parent, child } => {
+                let parent = parent_name(*parent);
+                let child = ca_name(*child as usize % MAX_CAS);
+                let known = parent != TA
+                    && self.model.cas.contains_key(&child)
+                    && self.model.cas.get(&parent).map(|p| p.children.contains_key(&child)).unwrap_or(false);
+                if !known {
+                    Err("no such child".into())
+                } else {
+                    let w = self.w.as_ref().unwrap();
+                    let r = crate::world::guarded(|| w.child_id_sync(&parent, &child))?;
+                    if r.is_ok() {
+                        self.flags.hit("child_id_synced");
                     }
                     r
                 }
